@@ -14,7 +14,16 @@ violation search) on
 and end to end with the CLI binary, metamorphically: for generated templates
 that produce findings, findings(F with comments) == findings(F with the
 comments replaced by blanks) and == findings(F without comments) (positions
-compared whenever the edit cannot move them)."""
+compared whenever the edit cannot move them) — with comments of every shape,
+among them comments whose content looks like code (PAYLOADS: pragma, include,
+main component, template, quotes) on every line, files whose only pragma is in a
+comment, and comment openers inside string literals of the code (STRING_LINES);
+and at the parse entry point (harness mode `ast` = the verif hook parse_source =
+parser_logic::parse_file): sources with the same reference-lexer image (the
+source, the source with its comments blanked by the extracted reference side,
+the source with its comment interiors overwritten by code-like text) must give
+the identical AST dump / error report — the observable side of
+Model.ParseEntry and the C05_parse_file_* theorems."""
 import concurrent.futures
 import glob
 import json
@@ -428,7 +437,9 @@ def run_cli(cli, workdir, name, text):
             for l in r.get("locations", []):
                 g = l["physicalLocation"]["region"]
                 regs.append((g.get("startLine"), g.get("startColumn"), g.get("endLine"), g.get("endColumn")))
-            findings.append((r.get("ruleId"), r.get("level"), r["message"]["text"], tuple(regs)))
+            # messages of un-located reports name the file (`The file `<path>` does not include a version
+            # pragma`): the scratch file name is not part of the finding
+            findings.append((r.get("ruleId"), r.get("level"), r["message"]["text"].replace(path, "<file>"), tuple(regs)))
         findings.sort(key=repr)
     except (OSError, ValueError, KeyError, IndexError):
         findings = None
@@ -609,6 +620,12 @@ def entry_sources(rng, n_templates, n_streams):
     shapes = BLOCK_SHAPES + MULTILINE_SHAPES
     for k in range(n_templates):
         lines = gen_template(rng, k)
+        # real includes / custom-gate pragma (parse_source does not resolve includes): fields of the AST that a
+        # raw-source consumer could get wrong
+        if rng.random() < 0.3:
+            lines.insert(1, ["include", '"lib.circom"', ";"])
+        if rng.random() < 0.1:
+            lines.insert(1, ["pragma", "custom_templates", ";"])
         between, eol = {}, {}
         dens = rng.choice([0.05, 0.2, 0.5])
         for i, toks in enumerate(lines):
@@ -818,7 +835,6 @@ def run(ctx, proofs):
     # parse entry point (AST level)
     entry_problems, entry_machinery, entry_stats, entry_sample = parse_entry(
         ctx, harness, model, 1500 if quick else 8000, 3000 if quick else 20000)
-    e2e_problems += entry_problems
     with_findings = sum(1 for r in e2e if r["nfindings"] > 0)
     rules = sorted({x for r in e2e for x in r["rules"]})
 
@@ -832,13 +848,15 @@ def run(ctx, proofs):
     if with_findings < n_e2e * 0.9:
         ctx.violation("generator degenerate: only %d of %d templates produce findings" % (with_findings, n_e2e),
                       {"broken": "C05 e2e generator"}, no_input=True)
+    for p in entry_problems[:3]:
+        ctx.violation("%s — violated" % p["relation"], {"e2e": p, "impl": p.get("left_findings"), "spec": p.get("right_findings")})
     if entry_machinery:
         ctx.violation("C05 machinery: %s (%d cases)" % (entry_machinery[0]["what"], len(entry_machinery)),
                       {"broken": "C05 parse-entry variant generator", "first": entry_machinery[0]}, no_input=True)
     if entry_stats["parsed_with_comment"] < 0.25 * entry_stats["sources"]:
         ctx.violation("generator degenerate: only %d of %d parse-entry sources parse and contain a comment"
                       % (entry_stats["parsed_with_comment"], entry_stats["sources"]), {"broken": "C05 parse-entry generator"}, no_input=True)
-    if not failing and not e2e_problems:
+    if not failing and not e2e_problems and not entry_problems:
         if disagreements:
             d = disagreements[0]
             ctx.violation("correspondence Model.Preprocess.preprocess vs parser_logic.rs preprocess broken (%d cases, first: %s impl=%s "
